@@ -615,8 +615,35 @@ class TableEval(TermEval):
         return None
 
 
+def expand_empty_joins(t):
+    """''.join(L) is the concatenation of the elements of L: literal elements in place, a map as a repetition"""
+    parts = list(t[1]) if t[0] == 'cat' else [t]
+    out = []
+    for p in parts:
+        if p[0] == 'join' and p[1] == ('str', '') and p[2][0] in ('lit', 'map', 'concat'):
+            segs = p[2][1] if p[2][0] == 'concat' else (p[2],)
+            ok = True
+            new = []
+            for sg in segs:
+                if sg[0] == 'lit':
+                    for e in sg[1]:
+                        ee = expand_empty_joins(e)
+                        new.extend(ee[1] if ee[0] == 'cat' else [ee])
+                elif sg[0] == 'map':
+                    body = expand_empty_joins(sg[2])
+                    new.append(('rep', sg[1], body[1] if body[0] == 'cat' else (body,), sg[3]))
+                else:
+                    ok = False
+            if ok:
+                out.extend(new)
+                continue
+        out.append(p)
+    return cat(out)
+
+
 def line_groups(t):
     """cut a text term into line groups, or None when it does not consist of whole lines"""
+    t = expand_empty_joins(t)
     parts = list(t[1]) if t[0] == 'cat' else [t]
     groups, cur = [], []
     i = 0
